@@ -3,6 +3,7 @@ package drv
 import (
 	"math/rand"
 	"sync"
+	"sync/atomic"
 	"time"
 
 	"github.com/rulego/streamsql"
@@ -30,6 +31,9 @@ type IngestScenario struct {
 	// Third directed family: the consumer is busy inside the sink (it holds no buffer reference) while ONE producer fills and
 	// expands the buffer several times; afterwards every row is processed in emission order (no admitted deviation here).
 	Stalled bool `json:"stalled"`
+	// every Empties-th row of a producer is handed in as an empty or nil map (a row without attributes is a row:
+	// it is processed and reported like any other, or counted as dropped)
+	Empties int `json:"empties"`
 }
 
 // RunIngest runs one ingest scenario and returns its trace.
@@ -92,6 +96,7 @@ func RunIngest(sc IngestScenario) (evs []Ev, inconclusive string) {
 		return nil
 	}
 	in.Bind(s.Stream()) // after OnHook / Perturb are set: engine goroutines may reach a hook point at once
+	var emptyIn, emptyOut int64
 	sinkGate := make(chan struct{})
 	var firstSink sync.Once
 	sinkParked := make(chan struct{}, 1)
@@ -106,12 +111,26 @@ func RunIngest(sc IngestScenario) (evs []Ev, inconclusive string) {
 			time.Sleep(time.Duration(sc.SlowSink) * time.Microsecond)
 		}
 		for _, r := range rs {
+			if r["id"] == nil && r["p"] == nil { // the result of an attribute-less row: "producer" 0, numbered in arrival order
+				in.Log(Ev{"tr": sc.Tr, "e": "proc", "p": 0, "i": atomic.AddInt64(&emptyOut, 1)})
+				continue
+			}
 			id, _ := toI64(r["id"])
 			p, _ := toI64(r["p"])
 			in.Log(Ev{"tr": sc.Tr, "e": "proc", "p": p, "i": id})
 		}
 	})
 	emit := func(p, i int) {
+		if sc.Empties > 0 && i%sc.Empties == 0 {
+			k := atomic.AddInt64(&emptyIn, 1)
+			in.Log(Ev{"tr": sc.Tr, "e": "emit", "p": 0, "i": k})
+			if k%2 == 0 {
+				s.Emit(nil)
+			} else {
+				s.Emit(map[string]any{})
+			}
+			return
+		}
 		in.Log(Ev{"tr": sc.Tr, "e": "emit", "p": p, "i": i})
 		s.Emit(map[string]any{"id": i, "p": p})
 	}
